@@ -106,6 +106,90 @@ theorem C17_join_roundtrip_drop_empty (d : Str) (items : List Str) (esc : Option
     Except.bind, pure, Except.pure]
   simp
 
+/-- **C17 (list of lists, join round trip; fix C17-i).**  Inner items joined with the inner
+delimiter, the lists joined with the outer one; no item contains a character of either
+delimiter, the inner delimiter contains no character of the outer one, there is at least one
+list and every list has at least one item (`''.split(d) == ['']`, as in the flat theorem).
+* `parse_empty=True`: `deserialize_list_of_lists` returns the lists — empty items included (before
+  the fix the inner call ran with `parse_empty=False` and dropped them), the list `['']` included.
+* `parse_empty=False` (the default): a list whose joined text is empty — exactly the list `['']`,
+  `C17_sublist_text_empty_iff` — is dropped, and every other list loses its empty items (a list of
+  several empty items comes back as `[]`). -/
+theorem C17_list_of_lists_roundtrip (d ds : Str) (lists : List (List Str)) (hd : d ≠ []) (hds : ds ≠ [])
+    (hne : lists ≠ []) (hine : ∀ l ∈ lists, l ≠ [])
+    (hc : ∀ l ∈ lists, ∀ it ∈ l, Clean d it ∧ Clean ds it) (hdd : Clean d ds) :
+    deserializeListOfLists (join d (lists.map (join ds))) d ds true = .ok lists
+    ∧ deserializeListOfLists (join d (lists.map (join ds))) d ds false
+        = .ok ((lists.filter (fun l => !(join ds l).isEmpty)).map (fun l => l.filter (fun it => !it.isEmpty))) := by
+  have hne' : lists.map (join ds) ≠ [] := by cases lists <;> simp_all
+  have hclean : ∀ t ∈ lists.map (join ds), Clean d t := by
+    intro t ht
+    obtain ⟨l, hl, rfl⟩ := List.mem_map.1 ht
+    exact clean_join d ds l (fun it hit => (hc l hl it hit).1) hdd
+  constructor
+  · unfold deserializeListOfLists
+    rw [C17_join_roundtrip d _ none hd hne' hclean (by intro e he; cases he)]
+    simp only [bind, Except.bind]
+    rw [List.mapM_map]
+    have := mapM_ok (fun l => deserializeList (join ds l) ds true none) id lists (by
+      intro l hl
+      exact C17_join_roundtrip ds l none hds (hine l hl) (fun it hit => (hc l hl it hit).2)
+        (by intro e he; cases he))
+    have hfun : ((fun it => deserializeList it ds true none) ∘ join ds)
+        = (fun l => deserializeList (join ds l) ds true none) := rfl
+    rw [hfun, this]
+    simp
+  · unfold deserializeListOfLists
+    rw [C17_join_roundtrip_drop_empty d _ none hd hne' hclean (by intro e he; cases he)]
+    simp only [bind, Except.bind]
+    rw [List.filter_map, List.mapM_map]
+    apply mapM_ok
+    intro l hl
+    have hl' : l ∈ lists := (List.mem_filter.1 hl).1
+    exact C17_join_roundtrip_drop_empty ds l none hds (hine l hl') (fun it hit => (hc l hl' it hit).2)
+      (by intro e he; cases he)
+
+/-- which lists the default `parse_empty=False` drops: the joined text of a non-empty list is empty
+exactly for `['']` -/
+theorem C17_sublist_text_empty_iff (ds : Str) (hds : ds ≠ []) (l : List Str) (hl : l ≠ []) :
+    (join ds l).isEmpty = true ↔ l = [[]] := by
+  rw [List.isEmpty_iff]
+  exact join_eq_nil_iff ds hds l hl
+
+/-- the audit's witness of C17-i and the corner cases, on the model of the fixed code -/
+theorem C17_list_of_lists_witness :
+    deserializeListOfLists ['a', ',', ',', 'b', ';', 'c'] [';'] [','] true = .ok [[['a'], [], ['b']], [['c']]]
+    ∧ deserializeListOfLists ['a', ',', ',', 'b', ';', ';', 'c'] [';'] [','] true
+        = .ok [[['a'], [], ['b']], [[]], [['c']]]
+    ∧ deserializeListOfLists ['a', ',', ',', 'b', ';', ';', ',', ';', 'c'] [';'] [','] false
+        = .ok [[['a'], ['b']], [], [['c']]] := by
+  decide
+
+/-- `deserialize_fixed_list`: the items, padded with the default item or cut to the fixed length -/
+theorem C17_fixed_list (d : Str) (items : List Str) (n : Nat) (dflt : Option Str) (hd : d ≠ [])
+    (hne : items ≠ []) (hc : ∀ it ∈ items, Clean d it) :
+    deserializeFixedList (join d items) d n dflt true
+        = .ok ((items.map some ++ List.replicate n dflt).take n)
+    ∧ (deserializeFixedList (join d items) d n dflt true).toOption.map List.length = some n := by
+  unfold deserializeFixedList
+  rw [C17_join_roundtrip d items none hd hne hc (by intro e he; cases he)]
+  refine ⟨rfl, ?_⟩
+  simp [bind, Except.bind, pure, Except.pure, Except.toOption]
+
+/-- `get_value_by_tag`: the value of `tag` in `k=v;…`; the default value when the tag is missing,
+has no `=` (it then *holds* the default value) or has the empty value -/
+theorem C17_value_by_tag_examples :
+    getValueByTag ['b'] "a;b=1;c=".toList [';'] ['='] none none = .ok (some ['1'])
+    ∧ getValueByTag ['a'] "a;b=1;c=".toList [';'] ['='] none (some ['D']) = .ok (some ['D'])
+    ∧ getValueByTag ['c'] "a;b=1;c=".toList [';'] ['='] none (some ['D']) = .ok (some ['D'])
+    ∧ getValueByTag ['z'] "a;b=1;c=".toList [';'] ['='] none none = .ok none := by
+  decide
+
+example : Clean [';'] [','] ∧ join [';'] ([[['a'], [], ['b']], [[]], [['c']]].map (join [','])) = "a,,b;;c".toList := by
+  decide
+example : deserializeFixedList "a;;b".toList [';'] 5 none true = .ok [some ['a'], some [], some ['b'], none, none] := by decide
+example : deserializeFixedList "a;;b".toList [';'] 2 none false = .ok [some ['a'], some ['b']] := by decide
+
 /-! ## key=value and mappings -/
 
 /-- **C17 (default value).**  An item in which the equal tag does not occur yields
